@@ -257,6 +257,7 @@ pub fn sd_eval(prop: &'static str, case: &SdCase) -> CaseOutcome {
     let mut init_failed_last = false;
     // does the driver believe the card is initialised (as far as the calls so far tell)
     let mut driver_init = false;
+    let mut post_fault_calls = false;
     let mut push = |prop: &'static str, oracle: &str, disc: &str, detail: String, i: usize| {
         if viols.len() < 8 {
             viols.push(Violation { prop, oracle: oracle.into(), disc: disc.into(), detail, op_idx: i });
@@ -384,8 +385,9 @@ pub fn sd_eval(prop: &'static str, case: &SdCase) -> CaseOutcome {
                         }
                     }
                 }
-                // memory: exactly the addressed blocks hold the data, nothing else changed
-                if !unreliable_answers {
+                // memory: exactly the addressed blocks hold the data, nothing else changed (a card that
+                // misbehaves on the wire may do anything to its own memory)
+                if !unreliable_answers && !wire_altered0 {
                     let c = rg.card.borrow();
                     for (k, v) in c.mem.iter() {
                         if twin.get(k) != Some(v) {
@@ -420,6 +422,16 @@ pub fn sd_eval(prop: &'static str, case: &SdCase) -> CaseOutcome {
                 break;
             }
             CallRes::Err(e) => {
+                if post_fault_calls && fired_now == fired_before {
+                    let in_range = match op {
+                        SdOp::Read { block, n } | SdOp::Write { block, n, .. } => *block + *n as u64 <= cap,
+                        _ => true,
+                    };
+                    if in_range {
+                        push("C13", "call-fails-after-the-fault-has-passed", &format!("{}:{}", opk, norm(e)), format!("{} (the one-off fault fired in an earlier call; the card is healthy)", e), i);
+                        break;
+                    }
+                }
                 if !adversarial {
                     let in_range = match op {
                         SdOp::Read { block, n } | SdOp::Write { block, n, .. } => *block + *n as u64 <= cap,
@@ -467,6 +479,16 @@ pub fn sd_eval(prop: &'static str, case: &SdCase) -> CaseOutcome {
                     driver_init = false;
                 }
             }
+        }
+        let transient = matches!(case.card.adversary, Adversary::FlipBits { .. } | Adversary::BadToken { .. } | Adversary::RejectWrite { .. } | Adversary::Cmd13Error { .. }) && case.bus_fail_at.is_none();
+        if matches!(res, CallRes::Err(_)) && adversarial && transient {
+            // a one-off fault: the card is healthy and in a defined state; the calls that follow must be a
+            // legal conversation and must work (judged by the ordinary oracles below and by the checker)
+            probes.hit("call_failed_under_transient_fault_session_continues");
+            if rg.card.borrow().adversary_fired > 0 {
+                post_fault_calls = true;
+            }
+            continue;
         }
         if matches!(res, CallRes::Err(_)) && adversarial {
             probes.hit("call_failed_under_adversary");
